@@ -28,7 +28,7 @@ PROPS['C02'] = dict(
     domain=['table + special tokens fit u32', 'wf(): no special spelling is also a regular token (configuration precondition)'],
     bounded_probe=dict(label='merge_bytes(via tokenize/de_tokenize)', file='src/tokenization.rs', line=1368,
                        what='the assumed contract of merge_bytes through the public API: every emitted id is a vocabulary id, and decoding the ids (special tokens ignored on both sides) returns the text without its trailing whitespace, as well-formed UTF-8',
-                       bound='7 merge tables (multi-level, overlapping, whitespace-prefixed, multi-byte merges) x {no limit, truncating max_vocab_size} x {no prefix/suffix, <bos>/<eos>} x texts of at most 5 pieces from {a, b, c, space, U+00E4, newline} (all without prefix/suffix, every 4th with)'),
+                       bound='7 merge tables (multi-level, overlapping, whitespace-prefixed, multi-byte merges) x {no limit, truncating max_vocab_size} x {no prefix/suffix, <bos>/<eos>} x texts of at most 5 pieces from {a, b, c, space, U+00E4, newline} and of at most 3 pieces from {<unk>, <pad>, <bos>, space, ab} (all without prefix/suffix, every 4th with)'),
 )
 
 PROPS['C04'] = dict(
@@ -86,7 +86,7 @@ PROPS['C14'] = dict(
     input_search=True,
     bounded_probe=dict(label='corrupt_whitespace(string-level)', file='src/data/preprocessing.rs', line=329,
                        what='the whole statement at STRING level in both modes through the public preprocessing() API (same non-whitespace characters, clean, operations/repair recover the text with one label per character, target untouched, deterministic, zero probabilities never fire); this is the only check of the grapheme-mode string-level clause',
-                       bound='every whitespace-clean text of at most 4 code points over {a, b, space, CR, LF, U+0001, U+0301, U+200D, U+0600, U+1F1E9, U+1100, U+1161, U+1F600} x use_graphemes in {true,false} x (iw,dw) in {(1,0),(0,1),(0.5,0.5)} x seeds 0..2'),
+                       bound='every whitespace-clean text of at most 4 code points over {a, b, space, CR, LF, U+0001, U+0301, U+200D, U+0600, U+1F1E9, U+1100, U+1161, U+1F600} x use_graphemes in {true,false} x (iw,dw) in {(1,0),(0,1),(0.5,0.5)} x seeds 0..2; plus train_task(WhitespaceCorrection) on 5 texts with literal special-token spellings: one label per token'),
 )
 
 PROPS['C18'] = dict(
@@ -191,7 +191,7 @@ PROPS['C13'] = dict(
     domain=['quick: tp, fp, fn < 2^10, beta = 1; thorough: < 2^20, beta in {0.5, 1, 2}'],
     bounded_probe=dict(label='correction_f1(public-API)', file='src/metrics.rs', line=227,
                        what='the clauses no contract reaches, through the public API: whitespace_correction_f1 (all three modes, micro and sequence averaged) equals the F-beta of the set comparison of the selected ground-truth / predicted whitespace operations (the "empty" flag included); spelling_correction_f1 never panics, is finite in [0,1], scores a prediction equal to the target without false positives or negatives and an unchanged prediction with zero true positives',
-                       bound='whitespace: every (input, prediction, target) over the 8 spacings of "abcd", alone and in batches of two, x 3 modes x micro/sequence x graphemes x beta in {1, 0.5}; spelling: every (input, prediction, target) over 9 short sentences x micro/sequence x graphemes'),
+                       bound='whitespace: every (input, prediction, target) over the 8 spacings of "abcd", alone and in batches of two, x 3 modes x micro/sequence x graphemes x beta in {1, 0.5}; spelling: every (input, prediction, target) over 9 short sentences x micro/sequence x graphemes; mean (normalised) edit distance == mean of edit::distance over pairs of 6 sentences x graphemes'),
 )
 
 PROPS['C01'] = dict(
@@ -204,7 +204,7 @@ PROPS['C01'] = dict(
     input_search=True,
     bounded_probe=dict(label='tokenize/de_tokenize(public-API)', file='src/tokenization.rs', line=626,
                        what='the whole statement through the public constructors and Tokenize API, i.e. INCLUDING the parts no contract reaches: the special-token regex built in new_base_tokenizer (regex::escape, Regex are external), split_input, VocabTokenizer::de_tokenize of the character tokenizer; byte tokenizer: ids == prefix + UTF-8 bytes (special tokens as single ids) + suffix and decoding returns the text; character tokenizer: one id per character, unknown id outside the alphabet, round trip over the alphabet',
-                       bound='every text of at most 3 pieces from {a, Z, space, U+00E4, e+U+0301, CRLF, woman-ZWJ-woman, <bos>, <|sep|>, [SEP], <, |, sep} x byte tokenizer configs (graphemes, code-point groups, pad_to_multiple_of 8, prefix/suffix, special tokens with regex metacharacters) x ignore_special_tokens x character tokenizer configs'),
+                       bound='every text of at most 3 pieces from {a, Z, space, U+00E4, e+U+0301, CRLF, woman-ZWJ-woman, <bos>, <|sep|>, [SEP], <, |, sep} x byte tokenizer configs (graphemes, code-point groups, pad_to_multiple_of 8, two-token prefix and suffix, special tokens with regex metacharacters) x ignore_special_tokens x character tokenizer configs'),
 )
 
 PROPS['C17'] = dict(
@@ -217,5 +217,5 @@ PROPS['C17'] = dict(
     input_search=True,
     bounded_probe=dict(label='tokenize/sparse/tensorize(public-API)', file='src/data/mod.rs', line=393,
                        what='the whole statement through the public API, INCLUDING what no contract reaches: <Batch<TrainItem> as Tensorize>::tensorize (iterator unzip chains over enum variants), TokenGroup::len / get_weights (recursive weights as f32), and the end-to-end composition tokenizer -> groupings -> sparse matrix',
-                       bound='texts of at most 3 pieces from {a, U+00E4, e+U+0301, CRLF, space, <bos>, a flag} x 16 byte-tokenizer configs (groups per text; batches of 1..3 texts for the sparse matrix); tensorize: 4 task kinds x batches of 1..3 items with (input, target) lengths in {0,1,2,5}^2'),
+                       bound='texts of at most 3 pieces from {a, U+00E4, e+U+0301, CRLF, space, <bos>, a flag} x 16 byte-tokenizer configs (groups per text; batches of 1..3 texts for the sparse matrix, also with alternating sum / mean aggregation); tensorize: 4 task kinds x batches of 1..3 items with (input, target) lengths in {0,1,2,5}^2'),
 )
